@@ -7,10 +7,11 @@ import Biogo.Model.Kmer
 import Biogo.Spec.Kmer
 import Biogo.Proofs.Kmer
 import Biogo.Proofs.KmerIndex
+import Biogo.Proofs.KmerWord
 import Biogo.Generated.KmerFacts
 
 namespace Biogo.Properties.C10
-open Biogo.Kmer Biogo.Spec.Kmer Biogo.Proofs.Kmer Biogo.Proofs.KmerIndex
+open Biogo.Kmer Biogo.Spec.Kmer Biogo.Proofs.Kmer Biogo.Proofs.KmerIndex Biogo.Proofs.KmerWord
 
 /-- the constants the model assumes are the constants of the package as compiled -/
 theorem facts_tie :
@@ -138,5 +139,65 @@ example :
   simp only [] at h
   repeat' split at h
   all_goals first | (simp at h; omega) | simp at h
+
+/-- `alpha.Letter(d)` is a letter whose index is `d` -/
+def LetterOf (lk : Lookup) (letter : Nat → UInt8) : Prop := ∀ d, d < 4 → lk (letter d) = some d
+
+theorem digits_map_letter {lk : Lookup} {letter : Nat → UInt8} (hl : LetterOf lk letter) (ds : List Nat)
+    (h : ∀ d ∈ ds, d < 4) : digits lk (ds.map letter) = some ds := by
+  induction ds with
+  | nil => rfl
+  | cons d ds ih =>
+    rw [List.map_cons, digits, hl d (h d (by simp)), ih (fun x hx => h x (by simp [hx]))]
+
+/-- "k-mer encoding … agree[s] with the corresponding string operations": a text of `k` valid
+    letters is encoded as the base-4 numeral of its letter indices (for every `k` that fits the
+    word type), and formatting that word gives back the letters of those indices. -/
+theorem format_kmerOf {lk : Lookup} (hlk : FourLetter lk) (letter : Nat → UInt8) (k : Nat)
+    (hk : 2 * k ≤ wordBits) (text : List UInt8) (ds : List Nat) (hlen : text.length = k)
+    (hd : digits lk text = some ds) :
+    kmerOf lk k text = .ok (encode ds) ∧ format letter k (encode ds) = ds.map letter := by
+  constructor
+  · unfold kmerOf
+    rw [if_neg (by omega), kmerOfLoop_ok hlk text ds hd 0 0 (by simp) (by omega)]
+    simp
+  · rw [format_eq, ← hlen, ← digits_length hd, toDigits_encode ds (digits_lt hlk hd)]
+
+/-- "… formatting … agree[s] with the corresponding string operations": `Format` writes the `k`
+    base-4 digits of the word as letters, most significant first, and `KmerOf` reads them back:
+    `KmerOf(Format(w)) = w` for every word below `4^k`. -/
+theorem kmerOf_format {lk : Lookup} (hlk : FourLetter lk) {letter : Nat → UInt8} (hl : LetterOf lk letter)
+    (k : Nat) (hk : 2 * k ≤ wordBits) (w : Nat) (hw : w < 4 ^ k) :
+    format letter k w = (toDigits k w).map letter ∧ kmerOf lk k (format letter k w) = .ok w := by
+  refine ⟨format_eq letter k w, ?_⟩
+  have hd := digits_map_letter hl (toDigits k w) (toDigits_lt k w)
+  have := (format_kmerOf hlk letter k hk ((toDigits k w).map letter) (toDigits k w)
+    (by rw [List.length_map, toDigits_length]) hd).1
+  rw [format_eq, this, encode_toDigits, Nat.mod_eq_of_lt hw]
+
+/-- texts of the wrong length or with an invalid letter are rejected -/
+theorem kmerOf_rejects (lk : Lookup) (k : Nat) (text : List UInt8) :
+    (text.length ≠ k → kmerOf lk k text = .error .badKmerTextLen) ∧
+    (text.length = k → digits lk text = none → kmerOf lk k text = .error .badKmerText) := by
+  constructor
+  · intro h; unfold kmerOf; rw [if_pos h]
+  · intro h hd; unfold kmerOf; rw [if_neg (by omega), kmerOfLoop_bad lk text hd]
+
+/-- "GC fraction … agree[s] with the corresponding string operations": the numerator of `GCof`
+    is the number of `c`/`g` digits among the `k` digits of the word (any `k`, any word) -/
+theorem gc_spec (k w : Nat) : gcOf k w = gcCount (toDigits k w) := by
+  unfold gcOf; rw [gcLoop_eq, Nat.zero_add]
+
+-- non-vacuity: the DNA letters; "gatc" = 2·64 + 0·16 + 3·4 + 1 = 141, two of its letters are G/C
+example :
+    let lk : Lookup := fun b => if b = 97 then some 0 else if b = 99 then some 1 else if b = 103 then some 2
+      else if b = 116 then some 3 else none
+    let letter : Nat → UInt8 := fun d => if d = 0 then 97 else if d = 1 then 99 else if d = 2 then 103 else 116
+    LetterOf lk letter ∧ kmerOf lk 4 [103, 97, 116, 99] = .ok 141 ∧ format letter 4 141 = [103, 97, 116, 99] ∧
+    gcOf 4 141 = 2 := by
+  refine ⟨?_, by rfl, by decide, by decide⟩
+  intro d hd
+  have : d = 0 ∨ d = 1 ∨ d = 2 ∨ d = 3 := by omega
+  rcases this with h | h | h | h <;> subst h <;> decide
 
 end Biogo.Properties.C10
